@@ -10,6 +10,19 @@ package main
 //     ok  delivered, answered        ql  query lost   -> the communicator reports a network timeout
 //     al  handled, answer lost -> network timeout     st  communicator returns smux.ErrTimeout itself
 //     er  some other error                            (script exhausted: ok)
+//
+//   dnsretry <hex payload, 1..8 bytes> ids mtu=<m> <fate>*     answers have an identity: one Write of ceil(len/m) fragments; fate of the
+//     j-th communicator call of the whole Write (numbered from 0), in addition to the five above:
+//     late<k>  handled; the answer is withheld (network timeout) and delivered in reply to call j+k — with its ORIGINAL message id and
+//              question, as a resolver path would deliver it — in place of that call's own answer (k = 1..9)
+//     dup      handled, answered; a second copy of the answer is delivered in reply to call j+1
+//     fid      handled, answered, but the message id of the answer was rewritten to one no query had
+//     The in-memory communicator hands whatever arrives to QueryWithData (a communicator is free to: the interface says nothing about ids).
+//
+//   dnsretry <hex> udp mtu=<m> <fate>*    the same script (without st/er) played by a scripted UDP server on a loopback socket against the REAL
+//     NetConnectionClientCommunicator (miekg's dns.Client.ExchangeWithConn, time-outs of SendAndReceive divided by 4): miekg skips datagrams
+//     whose id is not the query's and keeps waiting, so late answers, copies and foreign ids never reach QueryWithData.  `calls` is not
+//     printed (a slow machine may add a retransmission; the outcome does not depend on it for scripts with <= 2 losses).
 
 import (
 	"fmt"
@@ -34,6 +47,36 @@ type c07Comm struct {
 	calls   int
 	closed  bool
 	failAll bool // clean-up: every further exchange fails at once
+	held    []c07Held
+}
+
+// an answer the path has not delivered yet
+type c07Held struct {
+	due int // index of the (armed) call it is delivered in reply to
+	msg *dns.Msg
+}
+
+// as on the wire
+func c07Wire(m *dns.Msg) *dns.Msg {
+	if m == nil {
+		return nil
+	}
+	data, err := m.Pack()
+	if err != nil {
+		return nil
+	}
+	r := &dns.Msg{}
+	if r.Unpack(data) != nil {
+		return nil
+	}
+	return r
+}
+
+func c07LateK(f string) (int, bool) {
+	if len(f) == 5 && strings.HasPrefix(f, "late") && f[4] >= '1' && f[4] <= '9' {
+		return int(f[4] - '0'), true
+	}
+	return 0, false
 }
 
 func (t *c07Comm) Close() error { t.closed = true; return nil }
@@ -66,7 +109,9 @@ func (t *c07Comm) SendAndReceive(m *dns.Msg, timeout *time.Duration) (*dns.Msg, 
 		return nil, 0, errors.New("harness is shutting the history down")
 	}
 	fate := "ok"
+	idx := -1
 	if t.armed {
+		idx = t.calls
 		t.calls++
 		if t.pos < len(t.script) {
 			fate = t.script[t.pos]
@@ -75,19 +120,62 @@ func (t *c07Comm) SendAndReceive(m *dns.Msg, timeout *time.Duration) (*dns.Msg, 
 	}
 	// what NetConnectionClientCommunicator returns when the read deadline passes
 	netTimeout := errors.Wrapf(&net.OpError{Op: "read", Net: "udp", Err: os.ErrDeadlineExceeded}, "Could not send packet")
+	// the oldest answer the path delivers in reply to this call; others due now are dropped
+	var due *dns.Msg
+	if len(t.held) > 0 {
+		var keep []c07Held
+		for _, h := range t.held {
+			if h.due == idx && due == nil {
+				due = h.msg
+			} else if h.due > idx {
+				keep = append(keep, h)
+			}
+		}
+		t.held = keep
+	}
+	var own *dns.Msg
 	switch fate {
 	case "ql":
-		return nil, 0, netTimeout
 	case "al":
 		_, _ = t.deliver(m)
-		return nil, 0, netTimeout
 	case "st":
 		return nil, 0, smux.ErrTimeout
 	case "er":
 		return nil, 0, errors.New("connection refused")
+	case "dup":
+		r, err := t.deliver(m)
+		if err != nil {
+			return nil, 0, err
+		}
+		t.held = append(t.held, c07Held{due: idx + 1, msg: c07Wire(r)})
+		own = r
+	case "fid":
+		r, err := t.deliver(m)
+		if err != nil {
+			return nil, 0, err
+		}
+		r.Id++
+		own = r
+	case "ok":
+		r, err := t.deliver(m)
+		if err != nil {
+			return r, time.Millisecond, err
+		}
+		own = r
+	default:
+		if k, ok := c07LateK(fate); ok {
+			if r, err := t.deliver(m); err == nil {
+				t.held = append(t.held, c07Held{due: idx + k, msg: c07Wire(r)})
+			}
+		}
 	}
-	r, err := t.deliver(m)
-	return r, time.Millisecond, err
+	if due != nil {
+		return due, time.Millisecond, nil
+	}
+	if own != nil {
+		return own, time.Millisecond, nil
+	}
+	return nil, 0, netTimeout
 }
 
 type retryComp struct{}
@@ -101,6 +189,9 @@ func (retryComp) Exec(op string) (result string, monitor string, class string, n
 	toks := strings.Fields(op)
 	if len(toks) < 1 {
 		return "bad-op", "", "bad", false
+	}
+	if len(toks) >= 3 && (toks[1] == "ids" || toks[1] == "udp") {
+		return c07AnswersExec(toks)
 	}
 	data, err := unhex(toks[0])
 	if err != nil || len(data) == 0 || len(data) > 8 {
@@ -178,6 +269,7 @@ func (retryComp) Exec(op string) (result string, monitor string, class string, n
 }
 
 func (retryComp) Gen(r *Rand, tier string, emit func(op string)) {
+	defer c07AnswersGen(r, tier, emit)
 	fates := []string{"ql", "al", "st"}
 	// every number of leading losses 0..6 x every loss kind (uniform prefix), then ok / other error / nothing
 	for k := 0; k <= 6; k++ {
